@@ -522,3 +522,53 @@ func bodyLengthIsTheDeclaredLength(c *core.Ctx, rule string) {
 	}
 	c.Check(n == 1, rule, f.Name()+" calls decodeMsgBody", f.Decl.Pos(), fmt.Sprintf("%d calls found", n))
 }
+
+// ownCopyBeforeSessionRewrites: checkPropagateUpdate rewrites the path it is given for the session (prepend, next hop,
+// ORIGINATOR_ID, CLUSTER_LIST, OTC).  The path the Loc-RIB hands to the Adj-RIB-Out is the Loc-RIB's own object, so on
+// every way to checkPropagateUpdate the Adj-RIB-Out first takes its own copy (CheckRedistribute copies).  A copy taken
+// only "when the session rewrites something" is as good as the predicate's list of rewrites — and the next rewrite
+// added to checkPropagateUpdate is written into every table.
+func ownCopyBeforeSessionRewrites(c *core.Ctx, rule string) {
+	cpu := c.P.Func(outPkg + ".(*AdjRIBOut).checkPropagateUpdate")
+	if cpu == nil {
+		c.Check(false, rule, "checkPropagateUpdate", 0, "function not found")
+		return
+	}
+	n := 0
+	for _, f := range c.P.MethodsOf(outPkg, "AdjRIBOut") {
+		if f.Decl.Body == nil || f == cpu {
+			continue
+		}
+		has := func(keys ...string) func(ast.Node) bool {
+			return func(nd ast.Node) bool {
+				return core.NodeHas(nd, func(x ast.Node) bool {
+					cl, ok := x.(*ast.CallExpr)
+					if !ok {
+						return false
+					}
+					k := core.FuncKey(core.Callee(f.Pkg, cl))
+					for _, w := range keys {
+						if k == w {
+							return true
+						}
+					}
+					return false
+				})
+			}
+		}
+		target := has(outPkg + ".(*AdjRIBOut).checkPropagateUpdate")
+		if len(core.Calls(f.Pkg, f.Decl.Body, func(o *types.Func) bool { return o == cpu.Obj })) == 0 {
+			continue
+		}
+		n++
+		c.Analysed(f)
+		bad := core.PathAvoiding(c.P.CFG(f), has("route.(*Path).CheckRedistribute", "route.(*Path).Copy"), target)
+		at := f.Decl.Pos()
+		if len(bad) > 0 {
+			at = bad[0].Pos()
+		}
+		c.Check(len(bad) == 0, rule, f.Name()+" copies the Loc-RIB's path on every way to the session rewrites", at,
+			"checkPropagateUpdate (which writes next hop, AS path, ORIGINATOR_ID, CLUSTER_LIST, OTC into the path) is reachable without the Adj-RIB-Out having taken its own copy: the rewrite lands in the Loc-RIB's object and shows up in every other table")
+	}
+	c.Check(n >= 2, rule, "callers of checkPropagateUpdate", 0, fmt.Sprintf("only %d found", n))
+}
